@@ -71,6 +71,7 @@ func closeraceExec(ops []string) (dops []string, res []string) {
 		}
 		var mu sync.Mutex
 		acked := map[string]string{}
+		var refused []string
 		var wg sync.WaitGroup
 		var problem atomic.Value
 		var slowest atomic.Int64
@@ -113,6 +114,10 @@ func closeraceExec(ops []string) (dops []string, res []string) {
 						problem.Store("unexpected error from Update: " + err.Error())
 						return
 					} else {
+						// refused: must leave no trace (C08)
+						mu.Lock()
+						refused = append(refused, k)
+						mu.Unlock()
 						return
 					}
 				}
@@ -154,12 +159,18 @@ func closeraceExec(ops []string) (dops []string, res []string) {
 		// the directory can be reopened at once with the complete committed state
 		if out == "ok" {
 			db.VerifStopOracle()
+			ents0, _ := os.ReadDir(dir)
+			for _, e := range ents0 {
+				if strings.HasSuffix(e.Name(), ".log") {
+					out = "wal file left after Close returned (a memtable was not flushed): " + e.Name()
+				}
+			}
 			reads, prob, _ := openAndRead(dir, cfg, func() []string {
 				var ks []string
 				for k := range acked {
 					ks = append(ks, k)
 				}
-				return ks
+				return append(ks, refused...)
 			}(), nil)
 			if prob != "" {
 				out = "reopen after Close: " + prob
@@ -167,6 +178,12 @@ func closeraceExec(ops []string) (dops []string, res []string) {
 				for k, v := range acked {
 					if reads[k] != v {
 						out = fmt.Sprintf("acknowledged commit %s=%s reads %q after Close + Open", k, v, reads[k])
+						break
+					}
+				}
+				for _, k := range refused {
+					if v, ok := reads[k]; ok {
+						out = fmt.Sprintf("Update of %s was answered ErrDBClosed but its write (%q) is visible after Close + Open", k, v)
 						break
 					}
 				}
